@@ -22,6 +22,22 @@ def main():
         write_if_changed(os.path.join(LEAN, "Claripy", "Gen", "SolverPickle.lean"), tpk.render(tpk.translate()))
     except Exception as e:  # noqa: BLE001
         print("translate_pickle refused:", e)
+    # FP/strings family, Z3 tables, shared-state inventory
+    try:
+        import translate_fptables as tf
+        write_if_changed(os.path.join(LEAN, "Claripy", "Gen", "FpTables.lean"), tf.render(tf.translate()))
+    except Exception as e:  # noqa: BLE001
+        print("translate_fptables refused:", e)
+    try:
+        import translate_z3tables as tz
+        write_if_changed(os.path.join(LEAN, "Claripy", "Gen", "Z3Tables.lean"), tz.render(tz.translate()))
+    except Exception as e:  # noqa: BLE001
+        print("translate_z3tables refused:", e)
+    try:
+        import translate_shared as ts
+        write_if_changed(os.path.join(LEAN, "Claripy", "Gen", "SharedState.lean"), ts.render(ts.translate(), ts.load_classes()))
+    except Exception as e:  # noqa: BLE001
+        print("translate_shared refused:", e)
 
 
 if __name__ == "__main__":
